@@ -4,7 +4,8 @@ import KyupyVerif.Proofs.WaveMemSound
 
 * `WaveIO` (Model/WaveIO.lean): the two code paths as the code has them — `cpuCProp` / `gpuCProp` over lanes, evaluator `evWave`
   reading `rdCells`/`readWave` and writing `wrWave` (entries + terminator, everything else untouched); tied to the real arrays
-  cell by cell (C06 `path-tie`);
+  (C06 `path-tie`: `s_to_c`, `s_ppo_to_ppi`, capture cell by cell; `path-tie-cprop`, driver `wio-cprop`: after a whole `c_prop` the
+  waveform every region reads as and every accumulator);
 * `Wave` / `MapSound` (Proofs/WaveMem.lean, WaveMemSound.lean): regions `rdWave`/`wrWave junk`, the evaluator contract `WaveStep`,
   runs `WaveRun`, the deterministic run `memRun`; the theorems C03–C05, C13 (`wave_memory_sound`, …) are about these.
 
